@@ -115,7 +115,8 @@ COMPONENTS = {
             "simulated": ["history of numpy global-RNG users", "numpy global RNG state", "numba's private generator (seeded per session)", "call budget on the inner sampler"],
             "stub": [], "absent": ["clock", "stream", "MPI/CUDA"]},
     "ops": {"real": _REAL + ["all CPU classes of sigpy.linop", "sigpy.mri.linop factories", "sigpy.mri.rf.linop.PtxSpatialExplicit", "sigpy.prox", "public array functions of sigpy and sigpy.mri.util"],
-            "simulated": ["caller program (build / take .H,.N / apply / re-apply / probe / prox / function actions)", "buffer pool with layouts and aliasing kinds"],
+            "simulated": ["caller program (build / take .H,.N / apply / re-apply / probe / prox / function actions)", "buffer pool with layouts and aliasing kinds",
+                          "allocator state (recycled blocks of the sizes about to be requested are made non-zero before every call)"],
             "stub": [], "absent": ["clock", "stream", "callbacks", "MPI/CUDA (ToDevice, AllReduce not built)"]},
     "lls": {"real": _REAL + ["sigpy.app.LinearLeastSquares with all four solvers", "sigpy.app.MaxEig (default step sizes)", "tqdm progress-bar code"],
             "simulated": ["caller program", "numpy global RNG history", "wall clock", "stderr stream with write faults"],
